@@ -5,7 +5,7 @@ import binlib
 import c12text
 import textgen
 
-THEOREMS = ["C19_text_prefix", "C19_text_fault_reported", "C19_binary_failure_permanent"]
+THEOREMS = ["C19_text_prefix", "C19_text_fault_reported", "C19_binary_failure_permanent", "C19_binary_prefix_chunks", "C19_binary_prefix", "C19_binary_prefix_lst", "C19_binary_fault_reported", "C19_binary_fault_detected", "C19_binary_budget_respected", "C19_binary_append_only", "C19_binary_fault_recorded"]
 LEVEL = "other"
 EXPLANATION = ("read side: documents (binary and text) x chunkings (every single split point, byte-at-a-time, random "
                "chunk sizes, data returned together with io.EOF) must give the trace of the all-at-once read; a source "
